@@ -17,14 +17,16 @@ F1 == <<c_f, D1>>  F2 == <<c_f, D2>>  F3 == <<c_f, D3>>
 FileList == << [name |-> F1, recs |-> << <<c_a, SP, D1>>, <<c_b>>, <<c_c, SP, D3, SP, c_y>> >>],
                [name |-> F2, recs |-> << <<c_d, SP, c_d>>, <<c_a>> >>],
                [name |-> F3, recs |-> <<>>],
-               [name |-> <<D7>>, recs |-> << <<c_n, SP, D7>>, <<c_m>> >>] >>     \* a file whose name is a number
+               [name |-> <<D7>>, recs |-> << <<c_n, SP, D7>>, <<c_m>> >>],      \* a file whose name is a number
+               [name |-> <<D7, EQ, c_x>>, recs |-> << <<c_q, SP, D1>> >>] >>     \* 7=x: a digit cannot start a variable name, so this is a file
 FilesFn == [nm \in {FileList[j].name : j \in 1..Len(FileList)} |->
               FileList[CHOOSE j \in 1..Len(FileList) : FileList[j].name = nm].recs]
 Stdin2 == << <<c_s, D1>>, <<c_b, SP, c_s>> >>
 VEq(m) == <<c_v, EQ, 48 + m>>
 
 ArgLists == { <<>>, <<F1>>, <<F1, F2>>, <<F2, <<MINUS>>, F1>>, <<<<>>, F1, <<>>>>, <<VEq(1), F1, VEq(2), F2>>,
-              <<F1, VEq(5)>>, <<VEq(7)>>, <<F3, F1>>, <<F2, F2>>, <<<<MINUS>>>>, <<F1, F3, VEq(3), F2>> }
+              <<F1, VEq(5)>>, <<VEq(7)>>, <<F3, F1>>, <<F2, F2>>, <<<<MINUS>>>>, <<F1, F3, VEq(3), F2>>,
+              <<F2, <<D7, EQ, c_x>>, VEq(4)>> }
 
 \* FILENAME is not judged while standard input is read: the trace masks "-"
 FName == Cnd(Bin("==", V("FILENAME"), S(<<MINUS>>)), S(<<>>), V("FILENAME"))
